@@ -460,7 +460,9 @@ func Nitro(wdt float64, subd int, zeit int, g *GlobalVarsMain, l *NitroSharedVar
 		}
 		g.AKF.Inc()
 
-		if g.SAAT2[g.AKF.Index] <= zeit && g.AUTOMAN {
+		// only an entry of the rotation can be skipped: the placeholder behind the last entry has no harvest date
+		// (its sowing window is derived from SAAT of the last entry, which is still 0 when that entry is sown automatically)
+		if g.SAAT2[g.AKF.Index] <= zeit && g.AUTOMAN && (g.ERNTE[g.AKF.Index] > 0 || g.ERNTE2[g.AKF.Index] > 0) {
 			if g.ODU[g.AKF.Index-1] == 1 && g.ORGTIME[g.AKF.Index-1] == "H" {
 				g.NAOS[0] = g.NAOS[0] + g.NLAS[g.AKF.Index-1]
 				ln.DODAT = g.Kalender(zeit)
